@@ -166,7 +166,8 @@ CONTRACTS = [
 ]
 CANARIES = [("months_at_most_10", "pendulum._helpers.precise_diff", _canary_pd)]
 ASSUMPTIONS = [
-    "precise_diff cases same_zone / different_zones (UTC shift before the decomposition) are proved in the thorough tier only; in the quick tier callers assume their contract",
+    "precise_diff case same_zone (one zone object, equal offsets at both ends) is proved in the thorough tier only; in the quick tier callers assume its contract",
+    "precise_diff case different_zones (differently named zones, UTC shift before the decomposition) is ASSUMED, never proved: its thorough-tier proof attempt could not be made sound (DESIGN.md 12.2); bounded interval identities on real zone pairs and the Rust/Python differential cover it",
     "Interval-level lemmas are stated for naive, Date and fixed-offset pairs (the 'same UTC offset' side of the statement); zone pairs with equal offsets go through the same_zone case",
     "Rust precise_diff: never proved; bounded differential against the Python function",
     "A-FLOAT for the Interval's own (Duration) fields",
@@ -181,7 +182,7 @@ def bounded(ctx):
 
 
 MANIFEST_ENTRY = {
-    "text": "_helpers.precise_diff (naive and date pairs in the quick tier; same-zone and different-zone pairs in the thorough tier) is proved to return components within the canonical ranges whose addition to the earlier value (month shift, clamp, days, time) gives exactly the later one, with sign for reversed pairs; Interval.__init__/getters, reversed == negated, in_months == 12*years + months and a + (b - a) == b are lemmas over those contracts. The 'exactly a full month' arm violates the rebuild clause - a genuine defect recorded as a known finding and proved absent everywhere else.",
+    "text": "_helpers.precise_diff (naive and date pairs in the quick tier; same-zone pairs in the thorough tier; pairs in differently named zones are assumed and checked bounded only) is proved to return components within the canonical ranges whose addition to the earlier value (month shift, clamp, days, time) gives exactly the later one, with sign for reversed pairs; Interval.__init__/getters, reversed == negated, in_months == 12*years + months and a + (b - a) == b are lemmas over those contracts. The 'exactly a full month' arm violates the rebuild clause - a genuine defect recorded as a known finding and proved absent everywhere else.",
     "note": "Trusted: pyvc + spec, z3/cvc5. Assumed: CPython datetime contracts, A-FLOAT. Rust precise_diff is never proved: bounded differential (leap patterns x month/day pairs x time borrows) against the proved Python function.",
     "technique": "contract-based deductive verification (own VC generator over the real Python AST, z3/cvc5); harness lemmas; known finding proved outside its region; bounded Rust differential",
     "design_ref": "DESIGN.md section 8 (C06)",
